@@ -61,7 +61,11 @@ PM == << LeafV("python_version", ">=", <<3, 6>>), LeafV("python_version", "<", <
          And2(LeafV("python_version", ">=", <<3, 6>>), LeafX("dev")), Or2(LeafS("sys_platform", "==", "win32"), LeafV("python_version", ">", <<3, 8>>)),
          LeafV("python_version", "==", <<3, 9>>), LeafV("python_full_version", "<", <<3, 9, 6>>),
          And2(LeafS("os_name", "==", "posix"), LeafS("sys_platform", "!=", "linux")), Or2(LeafX("test"), LeafX("dev")),
-         LeafV("python_version", "~=", <<3, 7>>), LeafV("python_full_version", ">=", <<3, 9, 6>>) >>
+         LeafV("python_version", "~=", <<3, 7>>), LeafV("python_full_version", ">=", <<3, 9, 6>>),
+         \* an extra inside a disjunction: true without any extra when the other side is
+         Or2(LeafX("test"), LeafS("sys_platform", "==", "linux")), Or2(LeafX("dev"), LeafV("python_version", ">=", <<3, 0>>)),
+         Or2(LeafV("python_version", "<", <<3, 0>>), LeafX("test")), And2(Or2(LeafX("dev"), LeafS("os_name", "==", "posix")), LeafV("python_version", ">=", <<3, 6>>)),
+         Or2(And2(LeafX("test"), LeafS("sys_platform", "==", "win32")), LeafS("os_name", "==", "posix")) >>
 MarkerTrue(m, extras) == m = 0 \/ MEval(PM[m], extras)
 
 (* ---- validity ---- *)
@@ -74,27 +78,45 @@ ExtrasAt(g, n) == UNION {Els(e.extras) : e \in {x \in Els(g.edges) : x.t = n}}
 Active(U, g, n) == {d \in DepsOf(U, g.nodes[n]) : MarkerTrue(d.m, ExtrasAt(g, n))}
 RECURSIVE Reach(_, _)
 Reach(g, S) == LET T == S \cup {e.t : e \in {x \in Els(g.edges) : x.f \in S}} IN IF T = S THEN S ELSE Reach(g, T)
+\* requirements on package `name` declared by versions that are NOT in the final graph (abandoned pins: a version pinned
+\* first and replaced in place later, or one that became unreachable); the resolver keeps what they contributed
+StaleSrc(U, g, name) == UNION {UNION {{d \in Els(e.deps) : d.name = name} : e \in {x \in Els(p.versions) : ~\E k \in 1..Len(g.nodes) : g.nodes[k].name = p.name /\ g.nodes[k].v = x.v}} : p \in Els(U)}
 \* recorded finding C08-F20: the requirement is active only thanks to extras, and at least one requirement on this
-\* package does not request them (the package can be pinned before the extras arrive; its extra-guarded
-\* requirements are then never added)
-LateExtras(g, n, d) == d.m # 0 /\ ~MEval(PM[d.m], {}) /\ \E e \in Els(g.edges) : e.t = n /\ ~MEval(PM[d.m], Els(e.extras))
+\* package (in the graph, or from an abandoned version) does not request them (the package can be pinned before the
+\* extras arrive; its extra-guarded requirements are then never added)
+LateExtras(U, g, n, d) == d.m # 0 /\ ~MEval(PM[d.m], {}) /\ (\/ \E e \in Els(g.edges) : e.t = n /\ ~MEval(PM[d.m], Els(e.extras))
+                                                             \/ \E s \in StaleSrc(U, g, g.nodes[n].name) : ~MEval(PM[d.m], Els(s.extras)))
 \* recorded finding C08-F21: the requirement has an edge to a prerelease of its own exclusive upper bound (<V reaching
 \* V's prerelease), which happens when another requirement on the package names a prerelease and the resolver
 \* switches to interval matching
 UpperBoundPre(g, n, d) == \E e \in Els(g.edges) : e.f = n /\ g.nodes[e.t].name = d.name /\ e.r = d.r /\ IsPre(g.nodes[e.t].v)
                               /\ LooseSat[d.r][g.nodes[e.t].v] /\ ~RawSat[d.r][g.nodes[e.t].v]
+\* recorded finding C08-F24 (stale criteria, as in resolvelib before 0.8.1): what an abandoned version required stays in force.
+\* (a) the selected prerelease satisfies the requirement as an interval and a requirement of an abandoned version names a prerelease
+StalePre(U, g, n, d) == \E e \in Els(g.edges) : e.f = n /\ g.nodes[e.t].name = d.name /\ e.r = d.r /\ IsPre(g.nodes[e.t].v) /\ RawSat[d.r][g.nodes[e.t].v]
+                              /\ \E s \in StaleSrc(U, g, d.name) : NamesPre(s.r) /\ RawSat[s.r][g.nodes[e.t].v]
+\* (b) the edge's marker is false for the extras requested in the graph, but true with the extras an abandoned version requested
+StaleExtras(U, g, e) == \E d \in DepsOf(U, g.nodes[e.f]) : d.name = g.nodes[e.t].name /\ d.r = e.r /\ d.m # 0
+                              /\ \E s \in StaleSrc(U, g, g.nodes[e.f].name) : MEval(PM[d.m], ExtrasAt(g, e.f) \cup Els(s.extras))
 PipViolations(U, root, g) ==
      {<<"two-versions-of-one-package", i>> : i \in {i \in 1..Len(g.nodes) : \E j \in 1..Len(g.nodes) : j # i /\ g.nodes[j].name = g.nodes[i].name}}
   \cup (IF g.nodes[1].name = root.name /\ g.nodes[1].v = root.v THEN {} ELSE {<<"root-replaced", 1>>})
-  \cup UNION {{<<IF LateExtras(g, n, d) THEN "extra-guarded-requirement-missing-when-extras-arrive-after-the-pin"
+  \cup UNION {{<<IF LateExtras(U, g, n, d) THEN "extra-guarded-requirement-missing-when-extras-arrive-after-the-pin"
                  ELSE IF UpperBoundPre(g, n, d) THEN "prerelease-of-exclusive-upper-bound-admitted"
+                 ELSE IF StalePre(U, g, n, d) THEN "prerelease-admitted-by-requirement-of-an-abandoned-version"
                  ELSE "true-marker-requirement-without-satisfying-edge", n>> :
                  d \in {d \in Active(U, g, n) : ~\E e \in Els(g.edges) : e.f = n /\ g.nodes[e.t].name = d.name /\ e.r = d.r
                                                       /\ SatPip(d.r, g.nodes[e.t].v, HaveOf(U, d.name), {x.r : x \in {y \in Els(g.edges) : y.t = e.t}})}} : n \in 1..Len(g.nodes)}
-  \cup {<<"edge-from-false-marker-requirement", i>> : i \in {i \in 1..Len(g.edges) : LET e == g.edges[i] IN
+  \cup {<<IF StaleExtras(U, g, g.edges[i]) THEN "edge-from-extra-guarded-requirement-enabled-by-an-abandoned-version" ELSE "edge-from-false-marker-requirement", i>> :
+          i \in {i \in 1..Len(g.edges) : LET e == g.edges[i] IN
           (\E d \in DepsOf(U, g.nodes[e.f]) : d.name = g.nodes[e.t].name /\ d.r = e.r)
           /\ ~\E d \in Active(U, g, e.f) : d.name = g.nodes[e.t].name /\ d.r = e.r}}
   \cup {<<"unreachable-node", n>> : n \in (1..Len(g.nodes)) \ Reach(g, {1})}
+  \* the root is what is being installed: an edge leaving the root node that the root VERSION does not declare (but another
+  \* version of the root package does) means the root was replaced in all but name
+  \cup {<<"root-carries-requirement-of-another-root-version", i>> : i \in {i \in 1..Len(g.edges) : LET e == g.edges[i] IN e.f = 1
+          /\ ~(\E d \in DepsOf(U, g.nodes[1]) : d.name = g.nodes[e.t].name /\ d.r = e.r)
+          /\ \E ov \in Els(PkgRec(U, root.name).versions) : ov.v # root.v /\ \E d \in Els(ov.deps) : d.name = g.nodes[e.t].name /\ d.r = e.r}}
 \* informational (not part of C08): an edge the selected version of its source never declared
 UndeclaredEdges(U, g) == {i \in 1..Len(g.edges) : ~\E d \in DepsOf(U, g.nodes[g.edges[i].f]) : d.name = g.nodes[g.edges[i].t].name /\ d.r = g.edges[i].r}
 =============================================================================
